@@ -3,6 +3,7 @@ package dkgsim
 import (
 	"bytes"
 	"crypto/sha256"
+	"encoding/binary"
 	"fmt"
 	"math/big"
 	"os"
@@ -47,7 +48,7 @@ type rmsg struct {
 	copy int
 }
 
-var rabinMenu = []string{"commits-fit-all-but-one", "deal-share-off-poly", "deal-undecryptable", "deal-misdirected", "deal-silent-to-one", "deal-none",
+var rabinMenu = []string{"deal-extra-coefficient", "commits-fit-all-but-one", "deal-share-off-poly", "deal-undecryptable", "deal-misdirected", "deal-silent-to-one", "deal-none",
 	"just-missing", "just-wrong-share", "resp-false-complaint", "commits-inconsistent", "commits-missing", "complaint-commits-forged", "reconstruct-missing"}
 
 func rviol(oracle, class, format string, a ...any) *core.Violation {
@@ -226,6 +227,11 @@ func runRabin(t *core.Tape, tier string, info *core.RunInfo) *core.Violation {
 	_ = bcast
 	_ = send
 
+	type extraDeal struct {
+		sid []byte
+		top kyber.Point
+	}
+	extraCoef := map[int]*extraDeal{}
 	// ---- phase 0: deals ----
 	for _, p := range ps {
 		if p.dead(0) {
@@ -251,6 +257,60 @@ func runRabin(t *core.Tape, tier string, info *core.RunInfo) *core.Violation {
 			}
 			noJustify[p.id] = true
 			continue
+		}
+		if p.faulty == "byz" && p.beh["deal-extra-coefficient"] {
+			// A dealer whose polynomials have one coefficient MORE than the threshold it announces:
+			// f'(x) = f(x) + a*x^t (and g unchanged), commitments C_0..C_{t-1}, a*G, session id over
+			// those, every share on the committed polynomial. Every deal is internally consistent.
+			vd := p.gen.VerifDealer()
+			a := kit.ScalarFromTape(g, t, "byz.val")
+			var cs []kyber.Point
+			okAll := true
+			crafted := map[int]*rdkg.Deal{}
+			for j := 0; j < n && okAll; j++ {
+				if j == p.id {
+					continue
+				}
+				plain, err := vd.PlaintextDeal(j)
+				if err != nil {
+					okAll = false
+					break
+				}
+				bad := copyVssDeal(plain)
+				if cs == nil {
+					cs = append(kit.CopyPoints(g, bad.Commitments), g.Point().Mul(a, nil))
+				}
+				xt := new(big.Int).Exp(big.NewInt(int64(j)+1), big.NewInt(int64(th)), kit.L)
+				bad.SecShare.V = g.Scalar().Add(bad.SecShare.V, g.Scalar().Mul(a, kit.BigScalar(g, xt)))
+				bad.Commitments = kit.CopyPoints(g, cs)
+				h := kit.Ed().Hash()
+				_, _ = p.pub.MarshalTo(h)
+				for _, q := range ps {
+					_, _ = q.pub.MarshalTo(h)
+				}
+				for _, c := range cs {
+					_, _ = c.MarshalTo(h)
+				}
+				_ = binary.Write(h, binary.LittleEndian, uint32(th))
+				bad.SessionID = h.Sum(nil)
+				extraCoef[p.id] = &extraDeal{sid: kit.CopyBytes(bad.SessionID), top: g.Point().Mul(a, nil)}
+				e, err := vd.VerifEncryptDeal(j, bad, nil, nil)
+				if err != nil {
+					okAll = false
+					break
+				}
+				crafted[j] = &rdkg.Deal{Index: uint32(p.id), Deal: e}
+			}
+			if okAll {
+				for j := 0; j < n; j++ { // in index order: ranging over the map would make the schedule irreproducible
+					if d, ok := crafted[j]; ok {
+						sendNext(p.id, j, d)
+					}
+				}
+				info.ByzFired("deal-extra-coefficient")
+				continue
+			}
+			delete(extraCoef, p.id)
 		}
 		for j := 0; j < n; j++ {
 			d, ok := deals[j]
@@ -447,6 +507,10 @@ func runRabin(t *core.Tape, tier string, info *core.RunInfo) *core.Violation {
 					// believes its deal certified (e.g. because a verifier it cheated never answered)
 					vd := p.gen.VerifDealer()
 					sc = &rdkg.SecretCommits{Index: uint32(p.id), Commitments: kit.CopyPoints(g, vd.VerifSecretCommits()), SessionID: kit.CopyBytes(vd.SessionID())}
+					if x := extraCoef[p.id]; x != nil {
+						sc.Commitments = append(sc.Commitments, x.top)
+						sc.SessionID = kit.CopyBytes(x.sid)
+					}
 					sc.Signature, _ = schnorr.Sign(g, p.priv, sc.Hash(g))
 					err = nil
 					info.Probe("byzantine-dealer-forces-secret-commits")
@@ -567,6 +631,7 @@ func runRabin(t *core.Tape, tier string, info *core.RunInfo) *core.Violation {
 		}
 		if err != nil {
 			info.Probe("honest-finished-but-no-share")
+			info.Logf("honest party %d finished but DistKeyShare fails: %v", p.id, err)
 			if honestClass {
 				return rviol("liveness", "liveness/honest-run-no-share", "all parties honest, but party %d: %v", p.id, err)
 			}
